@@ -223,10 +223,13 @@ def main(tier: str, replay: str | None = None):
                     i = len(seen)
                     variants = (0, 1, 2) if case["dom"] in plan["three_spellings"] else ((i + len(case["prog"])) % 3,)
                     c = dict(case)
-                    for v in variants:
-                        buf.append((c, v, "visit"))
-                    if i % 7 == 0:
-                        buf.append((c, (i // 7) % 3, "load"))
+                    if case.get("mod") == "init":      # the program is a package's __init__.py: only meaningful loaded from disk
+                        buf.append((c, variants[0], "loadinit"))
+                    else:
+                        for v in variants:
+                            buf.append((c, v, "visit"))
+                        if i % 7 == 0:
+                            buf.append((c, (i // 7) % 3, "load"))
                     if len(buf) >= 200:
                         flush()
                 case.clear()      # tlc.run keeps every record: drop the payload, the pool has its copy
@@ -332,7 +335,7 @@ def main(tier: str, replay: str | None = None):
         print(f"  [{time.time() - t0:5.1f}s] rows and corpus done", flush=True)
     run.exhaustive = True
     # vacuity on the binding side: every statement form, every hazard class and the crash path were reached by replayed programs
-    if len(stats["pairs"]) < (12 if only else 52):
+    if len(stats["pairs"]) < (12 if only else 53):
         die(f"C01: the replayed programs use only {len(stats['pairs'])} statement forms: vacuous")
     stats["pairs"] = len(stats["pairs"])
     run.extra["c01"] = {k: v for k, v in sorted(stats.items())}
